@@ -68,7 +68,7 @@ def spec(tier, seed):
         shp = shapes.shapes_D_upto(2, 2)
         small = set(shapes.shapes_D_upto(2, 1) + shapes.shapes_D(1, 2))
     else:
-        shp = shapes.shapes_D_upto(2, 2) + shapes.shapes_D(3, 1) + shapes.shapes_D(1, 3) + shapes.shapes_D(3, 2)[::12] + shapes.shapes_D(2, 3)[::12]
+        shp = shapes.shapes_D_upto(2, 2) + shapes.shapes_D(3, 1) + shapes.shapes_D(1, 3) + shapes.shapes_D(3, 2)[::4] + shapes.shapes_D(2, 3)[::4]
         small = set(shapes.shapes_D_upto(2, 1) + shapes.shapes_D(1, 2))
     units = []
     for s in shp:
